@@ -335,7 +335,8 @@ impl<T: BitRead> PackedRead for T {
             // 17.8
             (
                 self.read_length_determinant(lower_bound_size, upper_bound_size)?,
-                true,
+                // a constrained length (upper bound below 64K) is never fragmented
+                !(const_is_some!(upper_bound_size) && upper_bound < LENGTH_64K),
             )
         };
 
